@@ -310,10 +310,32 @@ func runC07(c *core.Ctx) {
 			body := loopRef.Clause.Body
 			idx, why := -1, ""
 			verdict := 0
-			for i, s := range body {
-				if v, w := guardedCheck(s); v != 0 {
-					idx, verdict, why = i, v, w
+			scanBody := func() {
+				idx, why, verdict = -1, "", 0
+				for i, s := range body {
+					if v, w := guardedCheck(s); v != 0 {
+						idx, verdict, why = i, v, w
+					}
 				}
+			}
+			scanBody()
+			if idx < 0 {
+				// the reachable part of the arm was moved into a method (enterLoop): its statements are the arm's
+				ast.Inspect(loopRef.Clause, func(n ast.Node) bool {
+					if call, ok := n.(*ast.CallExpr); ok && idx < 0 {
+						if f := core.Callee(lp.TypesInfo, call); f != nil && f.Pkg() == lp.Types && !checkFns[f] {
+							if hd := declOf(lp, f); hd != nil {
+								saved := body
+								body = hd.Body.List
+								scanBody()
+								if idx < 0 {
+									body = saved
+								}
+							}
+						}
+					}
+					return true
+				})
 			}
 			switch {
 			case idx < 0:
